@@ -414,7 +414,7 @@ def gen_repo_history(ctx):
         if rng.random() < 0.7 and "master" not in pool:
             pool.append("master")
         if len(pool) < 2:
-            pool += ["7", "7.2"]
+            pool += [b for b in ["7", "7.2"] if b not in pool]
         initial = [b for b in pool if rng.random() < 0.6]
         epochs = []
         cur = set(initial)
